@@ -1050,3 +1050,84 @@ def ifexp_to_if(func):
         return out
     new.body = process(new.body)
     return _finish(new, func)
+
+
+def interpret(func, env):
+    """run the body of `func` for one state `env` (normalised source text ->
+    value; locals by name): plain and attribute assignments, if, return,
+    raise; expression statements are skipped.
+    -> ("return", value) | ("end", None); raises Raises / Unknown"""
+    env = dict(env)
+
+    def block(stmts):
+        for st in stmts:
+            if isinstance(st, ast.If):
+                r = block(st.body if Mini(env).ev(st.test) else st.orelse)
+                if r is not None:
+                    return r
+            elif isinstance(st, ast.Return):
+                return ("return", None if st.value is None
+                        else Mini(env).ev(st.value))
+            elif isinstance(st, ast.Raise):
+                raise Raises(f"raise {txt(st.exc)[:40] if st.exc else ''}")
+            elif isinstance(st, ast.Assign) and len(st.targets) == 1 \
+                    and isinstance(st.targets[0], (ast.Name, ast.Attribute)):
+                env[txt(st.targets[0])] = Mini(env).ev(st.value)
+            elif isinstance(st, (ast.Expr, ast.Pass)):
+                continue
+            else:
+                raise Unknown(txt(st)[:60])
+        return None
+    return block(func.body) or ("end", None)
+
+
+def expand_self_aliases(func):
+    """copy of `func` in which locals bound exactly once to an attribute
+    chain of ``self`` (``x = self.a.b``; the attribute is not assigned in the
+    function) are replaced by that chain and the binding is dropped"""
+    stores = {}
+    for n in walk(func):
+        if isinstance(n, ast.Name) and isinstance(n.ctx, (ast.Store,
+                                                          ast.Del)):
+            stores[n.id] = stores.get(n.id, 0) + 1
+    written = {txt(t) for n in walk(func)
+               if isinstance(n, (ast.Assign, ast.AugAssign, ast.AnnAssign))
+               for t in (n.targets if isinstance(n, ast.Assign)
+                         else [n.target])
+               if isinstance(t, ast.Attribute)}
+
+    def chain(e):
+        while isinstance(e, ast.Attribute):
+            e = e.value
+        return isinstance(e, ast.Name) and e.id == "self"
+    alias = {}
+    for n in func.body:
+        if isinstance(n, ast.Assign) and len(n.targets) == 1 and isinstance(
+                n.targets[0], ast.Name) and stores.get(
+                n.targets[0].id) == 1 and isinstance(
+                n.value, ast.Attribute) and chain(n.value) \
+                and txt(n.value) not in written:
+            alias[n.targets[0].id] = n
+    if not alias:
+        return func
+    new = _copy.deepcopy(func)
+    vals = {k: v.value for k, v in alias.items()}
+
+    class T(ast.NodeTransformer):
+        def visit_Name(self, node):
+            if isinstance(node.ctx, ast.Load) and node.id in vals:
+                return ast.copy_location(_copy.deepcopy(vals[node.id]), node)
+            return node
+
+        def visit_FunctionDef(self, node):
+            if node is new:
+                self.generic_visit(node)
+            return node
+
+        def visit_Lambda(self, node):
+            return node
+    new.body = [st for st in new.body if not (
+        isinstance(st, ast.Assign) and len(st.targets) == 1 and isinstance(
+            st.targets[0], ast.Name) and st.targets[0].id in vals)]
+    T().visit(new)
+    return _finish(new, func)
